@@ -58,8 +58,10 @@ Scheme xev_i := Induction for xev Sort Prop
 Combined Scheme x_ind from xev_i, xevs_i, xstmt_i, xblock_i.
 
 (* ---------------------------------------------------------------- machine states *)
+(* the configuration the simulation is stated for: none of the model's defect switches, no cap on loop rounds *)
+Definition quirks (r:rt) : list string * nat := (r_defects r, r_max_loop r).
 Definition Mach (s:sstate) (r:rt) (c:context) (f:frame) (rest:list frame) : Prop :=
-  Good r c /\ c_frames c = f :: rest /\ Match s r (f :: rest) /\ f_base f <= length (c_values c) /\ r_defects r = [].
+  Good r c /\ c_frames c = f :: rest /\ Match s r (f :: rest) /\ f_base f <= length (c_values c) /\ quirks r = ([], 0).
 
 (* after k instructions of the running frame: value v on top of the old stack, state s' *)
 Definition Post (s':sstate) (v:value) (k:nat) (r:rt) (c:context) (f:frame) (rest:list frame) : Prop :=
@@ -77,6 +79,12 @@ Definition BlockRuns (s:sstate) (reg:rvalue) (code:list instr) (reg':rvalue) (s'
 
 Lemma defects_upd_cur r c : r_defects (upd_cur r c) = r_defects r.
 Proof. unfold upd_cur. destruct (r_active r); reflexivity. Qed.
+Lemma quirks_upd_cur r c : quirks (upd_cur r c) = quirks r.
+Proof. unfold quirks, upd_cur. destruct (r_active r); reflexivity. Qed.
+Lemma quirks_defects r : quirks r = ([], 0) -> r_defects r = [].
+Proof. intros H. exact (f_equal fst H). Qed.
+Lemma quirks_loop r : quirks r = ([], 0) -> r_max_loop r = 0.
+Proof. intros H. exact (f_equal snd H). Qed.
 
 Lemma moved_refl f : moved f f. Proof. destruct f; reflexivity. Qed.
 Lemma kept_moved f f' : kept f f' -> moved f f'.
@@ -101,7 +109,7 @@ Proof.
   pose proof (run_push r c f rest pre post i v G EF EC EP EX) as S1.
   eexists _, _, _, rest. split; [exact S1|]. split.
   - split; [apply good_adv; exact G|]. split; [reflexivity|]. split; [apply match_upd, match_set_pos; exact M|].
-    split; [cbn; lia|rewrite defects_upd_cur; exact D].
+    split; [cbn; lia|rewrite quirks_upd_cur; exact D].
   - split; [reflexivity|]. split; [apply moved_set_pos|]. split; [reflexivity|apply kept_all_refl].
 Qed.
 
@@ -137,7 +145,7 @@ Qed.
 (* a frame that has run all its instructions completes: it hands the top of its region (nil if the region is empty)
    to the frame below and disappears *)
 Lemma complete_run r c f fc rest top vals :
-  Good r c -> r_defects r = [] -> c_frames c = f :: fc :: rest -> f_pos f = length (f_code f) -> f_exit f = None ->
+  Good r c -> quirks r = ([], 0) -> c_frames c = f :: fc :: rest -> f_pos f = length (f_code f) -> f_exit f = None ->
   c_values c = top ++ vals -> length vals = f_base f ->
   let c4 := set_values (set_frames c (fc :: rest)) (match top with [] => VNil | x :: _ => x end :: vals) in
   Steps r (upd_cur r c4) /\ Good (upd_cur r c4) c4.
@@ -151,7 +159,7 @@ Proof.
   assert (A2 : at_end (set_pos f (S (f_pos f))) = true) by (unfold at_end; cbn; apply Nat.eqb_eq; lia).
   rewrite A1, A2. cbn [f_exit set_pos]. rewrite EX. cbn [bindr]. rewrite E.
   cbn [c_frames set_frames length]. rewrite Nat.eqb_refl.
-  unfold defect. rewrite D. cbn [existsb].
+  unfold defect. rewrite (quirks_defects _ D). cbn [existsb].
   set (c1 := set_frames c (set_pos f (S (f_pos f)) :: fc :: rest)).
   destruct top as [|x top].
   - cbn [app] in EV.
@@ -173,7 +181,7 @@ Lemma scope_run s vars b reg s3 r1 c0 fc rest :
   BlockRuns (enter s vars) RNil (compile_block b) reg s3 ->
   let newf := mk_frame (cur_ns c0) (compile_block b) None None (mvars vars) in
   let c1 := push_value (push_frame c0 newf) VNil in
-  Good r1 c1 -> r_defects r1 = [] -> c_frames c0 = fc :: rest -> Match s r1 (fc :: rest) -> f_base fc <= length (c_values c0) ->
+  Good r1 c1 -> quirks r1 = ([], 0) -> c_frames c0 = fc :: rest -> Match s r1 (fc :: rest) -> f_base fc <= length (c_values c0) ->
   exists r' c' fc' rest', Steps r1 r' /\ Mach (pop_scope s3) r' c' fc' rest' /\ c_values c' = cv (res_of reg) :: c_values c0 /\
     kept fc fc' /\ Forall2 kept rest rest'.
 Proof.
@@ -201,7 +209,7 @@ Proof.
   - split; [exact G3|]. split; [reflexivity|]. split.
     + apply match_upd. destruct M2 as [F2 N2]. split; [|exact N2].
       inversion F2 as [|sc f0 scs fs FM F' E1 E2]; subst. cbn. rewrite <- E1. cbn. exact F'.
-    + split; [cbn; rewrite <- K2a; cbn; lia|rewrite defects_upd_cur; exact D2].
+    + split; [cbn; rewrite <- K2a; cbn; lia|rewrite quirks_upd_cur; exact D2].
   - split.
     + cbn. f_equal. destruct top as [|x top]; cbn in RR.
       * rewrite RR. reflexivity.
@@ -280,7 +288,7 @@ Proof.
       eexists _, _, fb, rb. split; [exact S2|]. split.
       { split; [exact G2|]. split; [reflexivity|]. split.
         { split; [cbn; constructor; assumption|]. rewrite nss_upd_cur. exact NS. }
-        split; [rewrite <- K1; cbn; exact B|rewrite defects_upd_cur; exact D1]. }
+        split; [rewrite <- K1; cbn; exact B|rewrite quirks_upd_cur; exact D1]. }
       split; [reflexivity|]. split; [unfold moved; rewrite <- K1; destruct f1; reflexivity|].
       split; [rewrite <- K1; reflexivity|exact K2].
     + unfold assign_local_var in *. rewrite A2 in *. rewrite A1. unfold bind_here. rewrite <- E1.
@@ -288,7 +296,7 @@ Proof.
       { split; [exact G2|]. split; [reflexivity|]. split.
         { split; [|rewrite nss_upd_cur; exact NS]. cbn. constructor; [|exact F'].
           destruct FM as (V & N0 & B0). split; [cbn; apply vars_match_set; exact V|split; [exact N0|exact B0]]. }
-        split; [cbn; exact B|rewrite defects_upd_cur; exact D1]. }
+        split; [cbn; exact B|rewrite quirks_upd_cur; exact D1]. }
       split; [reflexivity|]. split; [unfold moved; destruct f1; reflexivity|]. split; [reflexivity|apply kept_all_refl].
   - assert (EX : exec_instr (IAssign n) r1 c1' = Ok (ns_set r1 (f_ns f1) n (cv v), c2)).
     { cbn [exec_instr]. rewrite P. rewrite NE, IL. destruct (cv v); try reflexivity. exfalso. apply NV. reflexivity. }
@@ -302,7 +310,7 @@ Proof.
         rewrite assoc_mnss. destruct (assoc (sc_ns sc) (st_nss s1)) as [m|]; cbn [option_map].
         - rewrite assoc_set_mvars, assoc_set_mnss. reflexivity.
         - change (assoc_set (lower n) (cv v) []) with (mvars (assoc_set (lower n) v [])). rewrite assoc_set_mnss. reflexivity. }
-      split; [cbn; exact B|rewrite defects_upd_cur; exact D1]. }
+      split; [cbn; exact B|rewrite quirks_upd_cur; exact D1]. }
     split; [reflexivity|]. split; [unfold moved; destruct f1; reflexivity|]. split; [reflexivity|apply kept_all_refl].
 Qed.
 
@@ -330,7 +338,7 @@ Proof.
   { split; [exact G2|]. split; [reflexivity|]. split.
     { split; [|rewrite nss_upd_cur; exact NS]. cbn. constructor; [|exact F'].
       destruct FM as (V & N0 & B0). split; [cbn; apply vars_match_set; exact V|split; [exact N0|exact B0]]. }
-    split; [cbn; exact B|rewrite defects_upd_cur; exact D1]. }
+    split; [cbn; exact B|rewrite quirks_upd_cur; exact D1]. }
   split; [reflexivity|]. split; [unfold moved; destruct f1; reflexivity|]. split; [reflexivity|apply kept_all_refl].
 Qed.
 
@@ -349,7 +357,7 @@ Proof.
   { destruct G as (_ & _ & _ & _ & _ & _ & SU). exact SU. }
   exists (upd_cur r (set_values c1 below)), (set_values c1 below). split; [exact S1|]. split; [|left; reflexivity]. split.
   - split; [exact G1|]. split; [reflexivity|]. split; [apply match_upd, match_set_pos; exact M|].
-    split; [cbn; lia|rewrite defects_upd_cur; exact D].
+    split; [cbn; lia|rewrite quirks_upd_cur; exact D].
   - split; [exact LB|]. exists []. split; reflexivity.
 Qed.
 
@@ -370,7 +378,7 @@ Proof.
     destruct (proj1 (pure_sim _ _) e v HE r c f rest pre post G EF EC EP B (env_ok_of s r f rest M)) as [S1 NV].
     eexists _, _, _, rest. split; [exact S1|]. split.
     + split; [apply good_adv; exact G|]. split; [reflexivity|]. split; [apply match_upd, match_set_pos; exact M|].
-      split; [cbn; lia|rewrite defects_upd_cur; exact D].
+      split; [cbn; lia|rewrite quirks_upd_cur; exact D].
     + split; [reflexivity|]. split; [apply moved_set_pos|]. split; [reflexivity|apply kept_all_refl].
   - (* local variable *) intros s n v IL HL NN r c f rest pre post MA EC EP. cbn [compile_expr app length] in *.
     eapply push_post; eauto. intros c1 F1. cbn [exec_instr]. rewrite IL. unfold get_variable. rewrite F1.
@@ -396,7 +404,7 @@ Proof.
     + destruct G1 as (_ & _ & _ & _ & _ & _ & SU); exact SU.
     + eexists _, _, _, rest1. split; [eapply steps_trans; [exact S1|exact S2]|]. split.
       * split; [exact G2|]. split; [reflexivity|]. split; [apply match_upd, match_set_pos; exact MM1|].
-        split; [cbn; rewrite (moved_base _ _ MV1); lia|rewrite defects_upd_cur; exact D1].
+        split; [cbn; rewrite (moved_base _ _ MV1); lia|rewrite quirks_upd_cur; exact D1].
       * split; [reflexivity|]. split; [eapply moved_trans; [exact MV1|apply moved_set_pos]|]. split; [cbn; rewrite P1; lia|exact K1].
   - (* pure unary on any operand *) intros s n a va v s1 NL HA IHa HU r c f rest pre post MA EC EP.
     rewrite (compile_unary_nonlit n a NL) in *. rewrite app_length. cbn [length]. rewrite <- app_assoc in EC.
@@ -410,7 +418,7 @@ Proof.
     { destruct G1 as (_ & _ & _ & _ & _ & _ & SU); exact SU. }
     eexists _, _, _, rest1. split; [eapply steps_trans; [exact S1|exact S2]|]. split.
     + split; [exact G2|]. split; [reflexivity|]. split; [apply match_upd, match_set_pos; exact MM1|].
-      split; [cbn; rewrite (moved_base _ _ MV1); lia|rewrite defects_upd_cur; exact D1].
+      split; [cbn; rewrite (moved_base _ _ MV1); lia|rewrite quirks_upd_cur; exact D1].
     + split; [reflexivity|]. split; [eapply moved_trans; [exact MV1|apply moved_set_pos]|]. split; [cbn; rewrite P1; lia|exact K1].
   - (* pure binary on any operands *) intros s n a b va vb v s1 s2 HA IHa HB IHb HBin r c f rest pre post MA EC EP.
     rewrite compile_binary in *. rewrite !app_length. cbn [length]. rewrite <- !app_assoc in EC.
@@ -427,7 +435,7 @@ Proof.
     { destruct G2 as (_ & _ & _ & _ & _ & _ & SU); exact SU. }
     eexists _, _, _, rest2. split; [eapply steps_trans; [exact S1|eapply steps_trans; [exact S2|exact S3]]|]. split.
     + split; [exact G3|]. split; [reflexivity|]. split; [apply match_upd, match_set_pos; exact MM2|].
-      split; [cbn; rewrite (moved_base _ _ MV2), (moved_base _ _ MV1); lia|rewrite defects_upd_cur; exact D2].
+      split; [cbn; rewrite (moved_base _ _ MV2), (moved_base _ _ MV1); lia|rewrite quirks_upd_cur; exact D2].
     + split; [reflexivity|]. split; [eapply moved_trans; [exact MV1|eapply moved_trans; [exact MV2|apply moved_set_pos]]|].
       split; [cbn; rewrite P2, P1; lia|eapply kept_all_trans; eassumption].
   - (* call {..} *) intros s n a b s1 reg s2 HN NL HA IHa HB IHb r c f rest pre post MA EC EP.
@@ -446,7 +454,7 @@ Proof.
     { rewrite lower_idem, HN. fold c0. cbn [cv]. unfold op_unary. cbn [String.eqb Ascii.eqb Bool.eqb]. rewrite TH. reflexivity. }
     { destruct G1 as (_ & _ & _ & _ & _ & _ & SU); exact SU. }
     destruct (scope_run s1 [("_this", this_of s1)] b reg s2 _ c0 (set_pos f1 (S (f_pos f1))) rest1 IHb G2) as (r3 & c3 & fc3 & rest3 & S3 & M3 & EV3 & K3 & KR3).
-    { rewrite defects_upd_cur; exact D1. } { reflexivity. } { apply match_upd, match_set_pos; exact MM1. }
+    { rewrite quirks_upd_cur; exact D1. } { reflexivity. } { apply match_upd, match_set_pos; exact MM1. }
     { cbn. rewrite (moved_base _ _ MV1); exact B. }
     eexists _, _, fc3, rest3. split; [eapply steps_trans; [exact S1|eapply steps_trans; [exact S2|exact S3]]|]. split; [exact M3|].
     split; [exact EV3|]. split; [eapply moved_trans; [exact MV1|eapply moved_trans; [apply (moved_set_pos f1 (S (f_pos f1)))|apply kept_moved; exact K3]]|].
@@ -466,7 +474,7 @@ Proof.
     { rewrite lower_idem, HN. reflexivity. }
     { destruct G2 as (_ & _ & _ & _ & _ & _ & SU); exact SU. }
     destruct (scope_run s2 [("_this", va)] b reg s3 _ c0 (set_pos f2 (S (f_pos f2))) rest2 IHb G3) as (r4 & c4 & fc4 & rest4 & S4 & M4 & EV4 & K4 & KR4).
-    { rewrite defects_upd_cur; exact D2. } { reflexivity. } { apply match_upd, match_set_pos; exact MM2. }
+    { rewrite quirks_upd_cur; exact D2. } { reflexivity. } { apply match_upd, match_set_pos; exact MM2. }
     { cbn. rewrite (moved_base _ _ MV2), (moved_base _ _ MV1); exact B. }
     eexists _, _, fc4, rest4. split; [eapply steps_trans; [exact S1|eapply steps_trans; [exact S2|eapply steps_trans; [exact S3|exact S4]]]|].
     split; [exact M4|]. split; [exact EV4|].
@@ -483,7 +491,7 @@ Proof.
     { destruct G1 as (_ & _ & _ & _ & _ & _ & SU); exact SU. }
     eexists _, _, _, rest1. split; [eapply steps_trans; [exact S1|exact S2]|]. split.
     + split; [exact G2|]. split; [reflexivity|]. split; [apply match_upd, match_set_pos; exact MM1|].
-      split; [cbn; rewrite (moved_base _ _ MV1); lia|rewrite defects_upd_cur; exact D1].
+      split; [cbn; rewrite (moved_base _ _ MV1); lia|rewrite quirks_upd_cur; exact D1].
     + split; [reflexivity|]. split; [eapply moved_trans; [exact MV1|apply moved_set_pos]|]. split; [cbn; rewrite P1; lia|exact K1].
   - (* {..} else {..} *) intros s n a b x y s1 s2 HN HA IHa HB IHb r c f rest pre post MA EC EP.
     rewrite compile_binary in *. rewrite !app_length. cbn [length]. rewrite <- !app_assoc in EC.
@@ -499,7 +507,7 @@ Proof.
     { destruct G2 as (_ & _ & _ & _ & _ & _ & SU); exact SU. }
     eexists _, _, _, rest2. split; [eapply steps_trans; [exact S1|eapply steps_trans; [exact S2|exact S3]]|]. split.
     + split; [exact G3|]. split; [reflexivity|]. split; [apply match_upd, match_set_pos; exact MM2|].
-      split; [cbn; rewrite (moved_base _ _ MV2), (moved_base _ _ MV1); lia|rewrite defects_upd_cur; exact D2].
+      split; [cbn; rewrite (moved_base _ _ MV2), (moved_base _ _ MV1); lia|rewrite quirks_upd_cur; exact D2].
     + split; [reflexivity|]. split; [eapply moved_trans; [exact MV1|eapply moved_trans; [exact MV2|apply moved_set_pos]]|].
       split; [cbn; rewrite P2, P1; lia|eapply kept_all_trans; eassumption].
   - (* if false then {..} *) intros s n a b x s1 s2 HN HA IHa HB IHb r c f rest pre post MA EC EP.
@@ -516,7 +524,7 @@ Proof.
     { destruct G2 as (_ & _ & _ & _ & _ & _ & SU); exact SU. }
     eexists _, _, _, rest2. split; [eapply steps_trans; [exact S1|eapply steps_trans; [exact S2|exact S3]]|]. split.
     + split; [exact G3|]. split; [reflexivity|]. split; [apply match_upd, match_set_pos; exact MM2|].
-      split; [cbn; rewrite (moved_base _ _ MV2), (moved_base _ _ MV1); lia|rewrite defects_upd_cur; exact D2].
+      split; [cbn; rewrite (moved_base _ _ MV2), (moved_base _ _ MV1); lia|rewrite quirks_upd_cur; exact D2].
     + split; [reflexivity|]. split; [eapply moved_trans; [exact MV1|eapply moved_trans; [exact MV2|apply moved_set_pos]]|].
       split; [cbn; rewrite P2, P1; lia|eapply kept_all_trans; eassumption].
   - (* if true then {..} *) intros s n a b x s1 s2 reg s3 HN HA IHa HB IHb HX IHx r c f rest pre post MA EC EP.
@@ -533,7 +541,7 @@ Proof.
     { rewrite (moved_base _ _ MV2), (moved_base _ _ MV1); exact B. } { discriminate. } { discriminate. } { rewrite lower_idem, HN. reflexivity. }
     { destruct G2 as (_ & _ & _ & _ & _ & _ & SU); exact SU. }
     destruct (scope_run s2 [] x reg s3 _ c0 (set_pos f2 (S (f_pos f2))) rest2 IHx G3) as (r4 & c4 & fc4 & rest4 & S4 & M4 & EV4 & K4 & KR4).
-    { rewrite defects_upd_cur; exact D2. } { reflexivity. } { apply match_upd, match_set_pos; exact MM2. }
+    { rewrite quirks_upd_cur; exact D2. } { reflexivity. } { apply match_upd, match_set_pos; exact MM2. }
     { cbn. rewrite (moved_base _ _ MV2), (moved_base _ _ MV1); exact B. }
     eexists _, _, fc4, rest4. split; [eapply steps_trans; [exact S1|eapply steps_trans; [exact S2|eapply steps_trans; [exact S3|exact S4]]]|].
     split; [exact M4|]. split; [exact EV4|].
@@ -554,7 +562,7 @@ Proof.
     { rewrite lower_idem, HN. destruct cnd; reflexivity. }
     { destruct G2 as (_ & _ & _ & _ & _ & _ & SU); exact SU. }
     destruct (scope_run s2 [] (if cnd then x else y) reg s3 _ c0 (set_pos f2 (S (f_pos f2))) rest2 IHx G3) as (r4 & c4 & fc4 & rest4 & S4 & M4 & EV4 & K4 & KR4).
-    { rewrite defects_upd_cur; exact D2. } { reflexivity. } { apply match_upd, match_set_pos; exact MM2. }
+    { rewrite quirks_upd_cur; exact D2. } { reflexivity. } { apply match_upd, match_set_pos; exact MM2. }
     { cbn. rewrite (moved_base _ _ MV2), (moved_base _ _ MV1); exact B. }
     eexists _, _, fc4, rest4. split; [eapply steps_trans; [exact S1|eapply steps_trans; [exact S2|eapply steps_trans; [exact S3|exact S4]]]|].
     split; [exact M4|]. split; [exact EV4|].
